@@ -1,4 +1,5 @@
 import JominiModel.Model.Derive
+import JominiModel.Spec.Derive
 import JominiModel.Proofs.Derive
 /-
 C18 — JominiDeserialize field semantics hold for every field order and multiplicity.
@@ -13,19 +14,14 @@ open Jomini Jomini.Derive
 
 variable {ε V R : Type}
 
-/-- sample: `a` plain, `e` duplicated (alias "core"), `f` take_last, `c` with default -/
-def sample : Schema := [
-  { name := "a" }, { name := "e", alias := some "core", kind := .duplicated },
-  { name := "f", kind := .takeLast }, { name := "c", dflt := .yes }]
+/- `sampleS`, `basicS`, `tokS`, `intDe`, `textKey`, `binI32Key` are defined in `Spec/Derive.lean`. -/
 
-def sampleDe : FieldSpec → Nat → Except Unit Nat := fun _ v => .ok v
-
-example : run sample sampleDe [(.str "core", 1), (.str "f", 2), (.str "zz", 9), (.str "a", 3), (.str "core", 4), (.str "f", 5)]
+example : run sampleS intDe [(.str "core", 1), (.str "f", 2), (.str "zz", 9), (.str "a", 3), (.str "core", 4), (.str "f", 5)]
     = .ok [.val 3, .vec [1, 4], .val 5, .dflt] := by rfl
-example : run sample sampleDe [(.str "a", 1), (.str "a", 2)] = .error (.duplicate "a") := by rfl
-example : run sample sampleDe [(.str "e", 1)] = .error (.missing "a") := by rfl
+example : run sampleS intDe [(.str "a", 1), (.str "a", 2)] = .error (.duplicate "a") := by rfl
+example : run sampleS intDe [(.str "e", 1)] = .error (.missing "a") := by rfl
 -- a duplicate and a missing field compete: the duplicate wins
-example : run sample sampleDe [(.str "c", 1), (.str "c", 2)] = .error (.duplicate "c") := by rfl
+example : run sampleS intDe [(.str "c", 1), (.str "c", 2)] = .error (.duplicate "c") := by rfl
 
 /-- what a successful run looks like: the loop ended in a state `st` that is, slot by slot, the
 field's own arm folded over the field's values in document order. -/
@@ -212,7 +208,7 @@ theorem C18_alias_token (schema : Schema) (i : Nat) :
     · rintro ⟨f, h1, h2, h3⟩
       exact ⟨f, h1, h2, fun j g hj hg => by simpa using h3 j g hj hg⟩
 
-example : fieldIdx sample (.str "core") = some (some 1) ∧ fieldIdx sample (.str "e") = some none := ⟨by rfl, by rfl⟩
+example : fieldIdx sampleS (.str "core") = some (some 1) ∧ fieldIdx sampleS (.str "e") = some none := ⟨by rfl, by rfl⟩
 
 /-- unknown fields are ignored: removing a pair whose key selects no field, anywhere in the
 document, changes nothing (not even which error is reported). -/
@@ -318,7 +314,79 @@ theorem C18_perm (schema : Schema) (de : FieldSpec → V → Except ε R) (pairs
     | ok st => rw [(hstate st).mpr h2] at h1; cases h1
     | error e' => simp
 
-example : run sample sampleDe [(.str "core", 1), (.str "f", 2), (.str "a", 3), (.str "core", 4), (.str "f", 5)]
-    = run sample sampleDe [(.str "a", 3), (.str "core", 1), (.str "core", 4), (.str "f", 2), (.str "f", 5)] := by rfl
+example : run sampleS intDe [(.str "core", 1), (.str "f", 2), (.str "a", 3), (.str "core", 4), (.str "f", 5)]
+    = run sampleS intDe [(.str "a", 3), (.str "core", 1), (.str "core", 4), (.str "f", 2), (.str "f", 5)] := by rfl
+
+/-- the `visit_map` loop succeeds iff every key is deliverable and every field's own arm, folded
+over that field's values in document order, succeeds (then the run is the extraction of that
+state).  Generic in the value type `V`, the result type `R`, the value-error type `ε` and the value
+deserializer `de`: it covers every field type of the struct family (i32, Option, String, Vec,
+Vec<Vec>) — field types only enter through `de`. -/
+theorem C18_run_eq_folds (schema : Schema) (de : FieldSpec → V → Except ε R) (pairs : List (Key × V))
+    (res : List (FieldVal R)) :
+    run schema de pairs = .ok res ↔
+      ∃ st, keysOk schema pairs ∧ SlotsRel de schema pairs (initState schema) st ∧
+        extract (ε := ε) schema st = .ok res := by
+  unfold run
+  constructor
+  · intro h
+    cases hl : loop schema de pairs (initState schema) with
+    | error e => simp [hl] at h
+    | ok st =>
+      simp only [hl] at h
+      have := (loop_ok_iff de schema pairs (initState schema) st (by simp [initState])).mp hl
+      exact ⟨st, this.1, this.2, h⟩
+  · rintro ⟨st, hk, hs, hx⟩
+    have := (loop_ok_iff de schema pairs (initState schema) st (by simp [initState])).mpr ⟨hk, hs⟩
+    simp [this, hx]
+
+/-- the family's value types at once: values and results are a sum of integers, strings, lists and
+lists of lists (what `i32` / `Option<i32>` / `String` / `Vec<i32>` / `Vec<Vec<i32>>` fields hold) —
+`C18_perm` instantiated, to show that nothing in it depends on a scalar value type. -/
+example (schema : Schema)
+    (de : FieldSpec → (Int ⊕ String ⊕ List Int ⊕ List (List Int)) → Except String (Int ⊕ String ⊕ List Int ⊕ List (List Int)))
+    (pairs pairs' : List (Key × (Int ⊕ String ⊕ List Int ⊕ List (List Int)))) (hperm : pairs'.Perm pairs)
+    (hocc : ∀ i f, schema[i]? = some f →
+      (occs schema pairs' i).Perm (occs schema pairs i) ∧
+      (f.kind = .duplicated → occs schema pairs' i = occs schema pairs i) ∧
+      (f.kind = .takeLast → (occs schema pairs' i).getLast? = (occs schema pairs i).getLast?)) (res) :
+    run schema de pairs = .ok res ↔ run schema de pairs' = .ok res :=
+  C18_perm schema de pairs pairs' hperm hocc res
+
+/-! ### the two recorded findings, on the model (negative counterparts of `C18_unknown_ignored`)
+
+`C18_unknown_ignored` needs the key to reach the visitor as a string / `u16` that selects no field
+(`fieldIdx = some none`).  A key that reaches it through any other `visit_*` (`Key.other`) is never
+ignored — whatever the schema — and two document shapes deliver unknown keys that way. -/
+
+/-- a key delivered through a `visit_*` the generated visitor does not implement is rejected with
+`invalid type` as soon as the pairs before it are accepted: it is NOT ignored. -/
+theorem C18_undeliverable_key_rejected (schema : Schema) (de : FieldSpec → V → Except ε R)
+    (pre post : List (Key × V)) (v : V) (st : List (Slot R))
+    (h : loop schema de pre (initState schema) = .ok st) :
+    run schema de (pre ++ (Key.other, v) :: post) = .error .invalidType := by
+  simp [run, loop_append, h, loop, fieldOf, fieldIdx]
+
+/-- Known finding `unknown-int-key-binary` (contradicts the clause "unknown fields are ignored"):
+`derive basic a=1,f=2,%123=5` — in the BINARY rendering the unknown key `123` is an I32 token and
+reaches the visitor through `visit_i32`: the run fails with `invalid type`, although without that
+field, and in the TEXT rendering of the same document, the struct deserializes. -/
+theorem C18_known_unknown_int_key_binary :
+    run basicS intDe [(.str "a", 1), (.str "f", 2), (binI32Key, 5)] = .error .invalidType ∧
+    run basicS intDe [(.str "a", 1), (.str "f", 2)] = .ok [.val 1, .dflt, .dflt, .dfltPath, .vec [], .val 2] ∧
+    run basicS intDe [(textKey basicS "a", 1), (textKey basicS "f", 2), (textKey basicS "123", 5)] =
+      .ok [.val 1, .dflt, .dflt, .dfltPath, .vec [], .val 2] := by
+  refine ⟨by rfl, by rfl, by rfl⟩
+
+/-- Known finding `unknown-digit-key-token-struct` (contradicts "unknown fields are ignored"):
+`derive tok a=1,bee=2,123=5` read as TEXT — the struct has `token` attributes, so keys are requested
+with `deserialize_u16`, the all-digit key reaches the visitor through `visit_u64`: `invalid type`.
+The key is unknown (as a string it selects no field and would be ignored), and without it the
+struct deserializes. -/
+theorem C18_known_unknown_digit_key_token_struct :
+    run tokS intDe [(textKey tokS "a", 1), (textKey tokS "bee", 2), (textKey tokS "123", 5)] = .error .invalidType ∧
+    textKey tokS "123" = .other ∧ fieldIdx tokS (.str "123") = some none ∧
+    run tokS intDe [(textKey tokS "a", 1), (textKey tokS "bee", 2)] = .ok [.val 1, .vec [], .dflt, .val 2, .dflt, .dflt] := by
+  refine ⟨by rfl, by rfl, by rfl, by rfl⟩
 
 end Jomini.Props.C18
